@@ -255,6 +255,7 @@ type Action struct {
 	Zeros       []int `json:"zeros,omitempty"`  // number of (0,nil) reads before each data read (cycled)
 	EOFWithData bool  `json:"eofwithdata,omitempty"`
 	SrcErr      bool  `json:"srcerr,omitempty"` // the source ends with ErrSource instead of io.EOF
+	Stall       bool  `json:"stall,omitempty"`  // after its data the source only returns (0, nil): ReadFrom gives up with io.ErrNoProgress
 	// grow
 	N int `json:"n,omitempty"`
 }
@@ -299,6 +300,12 @@ func (a Action) Shape(v View) string {
 	case KWrite, KThrough:
 		return a.Kind[:1] + cls(a.Len)
 	case KReadFrom:
+		switch {
+		case a.Stall:
+			return "rS" + cls(a.Len)
+		case a.SrcErr:
+			return "rE" + cls(a.Len)
+		}
 		return "r" + cls(a.Len)
 	case KGrow:
 		return "g" + cls(a.N)
@@ -320,6 +327,7 @@ type Source struct {
 	Chunks      []int
 	Zeros       []int
 	EOFWithData bool
+	Stall       bool // after the data: (0, nil) for ever
 	End         error
 	Pos         int
 	Reads       int
@@ -351,6 +359,9 @@ func (s *Source) Read(p []byte) (int, error) {
 	}
 	rem := len(s.Data) - s.Pos
 	if rem == 0 {
+		if s.Stall {
+			return 0, nil
+		}
 		return 0, end
 	}
 	n := len(p)
@@ -366,7 +377,7 @@ func (s *Source) Read(p []byte) (int, error) {
 	}
 	copy(p, s.Data[s.Pos:s.Pos+n])
 	s.Pos += n
-	if s.Pos == len(s.Data) && s.EOFWithData {
+	if s.Pos == len(s.Data) && s.EOFWithData && !s.Stall {
 		return n, end
 	}
 	return n, nil
@@ -454,7 +465,7 @@ func (e *Exec) Do(a Action) Result {
 		n, err := e.W.WriteThrough(a.Data())
 		r.N, r.Err = int64(n), ErrClass(err)
 	case KReadFrom:
-		src := &Source{Data: Fill(a.Start, a.Len), Chunks: a.Chunks, Zeros: a.Zeros, EOFWithData: a.EOFWithData}
+		src := &Source{Data: Fill(a.Start, a.Len), Chunks: a.Chunks, Zeros: a.Zeros, EOFWithData: a.EOFWithData, Stall: a.Stall}
 		if a.SrcErr {
 			src.End = ErrSource
 		}
@@ -494,7 +505,7 @@ func Describe(steps []Step) []string {
 		case KWrite, KThrough:
 			d = fmt.Sprintf("%s(len=%d nil=%v)", a.Kind, a.Len, a.Nil)
 		case KReadFrom:
-			d = fmt.Sprintf("readfrom(len=%d chunks=%v zeros=%v eofWithData=%v srcErr=%v)", a.Len, a.Chunks, a.Zeros, a.EOFWithData, a.SrcErr)
+			d = fmt.Sprintf("readfrom(len=%d chunks=%v zeros=%v eofWithData=%v srcErr=%v stall=%v)", a.Len, a.Chunks, a.Zeros, a.EOFWithData, a.SrcErr, a.Stall)
 		case KGrow:
 			d = fmt.Sprintf("grow(%d)", a.N)
 		default:
